@@ -329,7 +329,9 @@ def run_case(case):
             s = (A.cfg.ascender - A.cfg.descender) / vbs[i][3] * max(1.0, geom.sigma_max(rc.user_matrix(A.cfg)))
             tol = compare.Tol(A.cfg.upem, output="svg", tau_seg=t * s)
         else:
-            tol = compare.Tol(A.cfg.upem, output="colr", tau_seg=t, truetype=True)
+            # the reference here is itself a compiled font (the no-reuse build): its outlines carry their own integer
+            # rounding (half a unit per axis), which the source-referenced tolerance of C01 does not have to allow for
+            tol = compare.Tol(A.cfg.upem, output="colr", tau_seg=t, truetype=True, extra=0.7072)
         pr, st = compare.compare_layers(vb_, va, tol)
         for p in pr:
             p.update({"input": i, "config": cfg, "codepoints": sources[i]["codepoints"]})
